@@ -739,6 +739,9 @@ class StoredFieldFacet(FacetType):
         def keys_for(self, matcher, docid):
             d = self.segment_searcher.stored_fields(docid)
             value = d.get(self.fieldname)
+            if value is None:
+                # No stored value: group under None, like FieldFacet does
+                return [None]
             if self.split_fn:
                 return self.split_fn(value)
             else:
